@@ -1,5 +1,6 @@
 import PyGam.Proofs.Penalty
 import PyGam.Proofs.Kron
+import PyGam.Proofs.TensorPen
 import Mathlib.Algebra.Order.Ring.Defs
 import Mathlib.Tactic.Positivity
 /-!
@@ -176,6 +177,22 @@ theorem margPenLift_append (per : Nat → Nat → Nat → α) (i : Nat) (ms : Li
     rw [ih]
     have : pos + 1 + ms.length = pos + (ms.length + 1) := by omega
     rw [this]
+
+/-- **any number of marginals**: appending a marginal `m` to a tensor term over `a :: ms` (`N` coefficients)
+adds, for every value `j` of the new (fastest) index, the roughness of the old tensor term along the `j`-th slab,
+and, for every old index `i`, the roughness of the new marginal along the `i`-th fibre.  Unfolding this recursion
+over the list of marginals gives "the sum over marginals of the marginal roughness of every fibre of the coefficient
+array", in the row-major coefficient order `((i₀ m₁ + i₁) m₂ + i₂) …` of the model-matrix columns. -/
+theorem tensor_append_quadForm (per : Nat → Nat → Nat → α) (a : Marg α) (ms : List (Marg α)) (m : Marg α)
+    (hpos : ∀ x ∈ a :: ms, 0 < x.nCoefs) (N : Nat) (c : Nat → α) :
+    quadForm (N * m.nCoefs) (tensorPenalty per (a :: (ms ++ [m]))) c
+      = ∑ j ∈ range m.nCoefs, quadForm N (tensorPenalty per (a :: ms)) (fun i => c (i * m.nCoefs + j))
+        + ∑ i ∈ range N, quadForm m.nCoefs (m.penalty per) (fun j => c (i * m.nCoefs + j)) := by
+  have h : tensorPenalty per (a :: (ms ++ [m])) = fun r s =>
+      kronMat (tensorPenalty per (a :: ms)) m.nCoefs (ident (α := α)) r s
+        + kronMat (ident (α := α)) m.nCoefs (m.penalty per) r s := by
+    funext r s; exact tensorPenalty_append per a ms m hpos r s
+  rw [h, quadForm_add, quadForm_kron_left, quadForm_kron_right]
 
 /-- the model penalty is block-diagonal in term order … -/
 theorem list_penalty_quadForm (per : Nat → Nat → Nat → α) (t : Term α) (ts : List (Term α)) (c : Nat → α) :
